@@ -19,27 +19,10 @@ def nontrivial(ep):
     return len(ep["balance_cr"]) >= 2 and len(ep["balance"]["used"]["epus_by_srv"]) >= 2
 
 
-def tiny_use(rng, b):
-    """the property is stated for all component sets: now and then the EPB use of one carrier is made tiny (a few millionths of a
-    kWh in the year) while its production, if any, keeps its size: the breakdowns must still add up"""
-    from fractions import Fraction
-    if rng.random() >= 0.2:
-        return
-    crs = sorted({kw["carrier"] for k, kw in b.lines if k == "CONSUMO" and kw.get("service") not in ("NEPB", "COGEN")})
-    if not crs:
-        return
-    cr = rng.choice(crs)
-    f = Fraction(1, 2 ** rng.choice([20, 24, 28]))
-    for k, kw in b.lines:
-        if k == "CONSUMO" and kw["carrier"] == cr and kw.get("service") not in ("NEPB", "COGEN"):
-            kw["values"] = [Fraction(v) * f for v in kw["values"]]
-    b.tags.add("tiny_use_carrier")
-
-
 def run(tier, seed):
     from .. import epflow
     return epcheck.run("C04", tier, seed, THEOREMS, select, oracles.oracle_c04, nontrivial,
-                       case_gen=lambda r, k, prefix="c": epflow.gen_cases(r, k, multi_eval="area", prefix=prefix, tweak=tiny_use),
+                       case_gen=lambda r, k, prefix="c": epflow.gen_cases(r, k, multi_eval="area", prefix=prefix, tweak=epflow.tiny_use),
                        multi_eval="area", n_model=40 if tier == "quick" else 300,
                        level_note="totals are sums over carriers by definition of the model (tied to the implementation's "
                                   "accumulators by correspondence); breakdown identities and area laws are theorems")
